@@ -179,6 +179,19 @@ func runC14History(r *mon.Run, stream uint64) {
 		return
 	}
 	cm := node.CM
+	// a twin fed exactly the same submissions and blocks: it may be queried at
+	// any time, so that on the node under test a submission can be the FIRST
+	// pool operation after a block (the pool is revalidated lazily)
+	tw, err := chainlab.NewTestNode(env, nil)
+	if err != nil {
+		r.Inconclusive(err.Error())
+		return
+	}
+	if err := tw.CM.AddBlocks(chainlab.Blocks(tip.PathFromGenesis())); err != nil {
+		r.Inconclusive(err.Error())
+		return
+	}
+	lazy := false
 	base := c14Case{Stream: stream, Params: p, Height: tip.Height}
 	var everIDs []types.TransactionID
 	steps := 14
@@ -206,6 +219,13 @@ func runC14History(r *mon.Run, stream uint64) {
 				if err := cm.AddBlocks(chainlab.Blocks([]*chainlab.Node{n})); err == nil && cm.Tip().ID == n.ID {
 					tip = n
 					base.Height = tip.Height
+					tw.CM.AddBlocks(chainlab.Blocks([]*chainlab.Node{n}))
+					if rng.IntN(2) == 0 {
+						// no query on the node under test: the next submission is its
+						// first pool operation after this block
+						lazy = true
+						goto submit
+					}
 					post := snapPool(cm)
 					r.Count("blocks_confirming_part_of_pool", 1)
 					cs := base
@@ -217,7 +237,15 @@ func runC14History(r *mon.Run, stream uint64) {
 				}
 			}
 		}
-		pre := snapPool(cm)
+	submit:
+		var pre poolSnap
+		if lazy {
+			pre = snapPool(tw.CM)
+			r.Count("submissions_as_first_pool_operation_after_block", 1)
+		} else {
+			pre = snapPool(cm)
+		}
+		lazy = false
 		pb, ok := tip.L.PoolBuilder(rng, pre.v1, pre.v2)
 		if !ok {
 			r.Count("pool_not_valid_under_oracle", 1)
@@ -376,6 +404,14 @@ func runC14History(r *mon.Run, stream uint64) {
 		for _, x := range set2 {
 			img = append(img, chainlab.EncodeV2(x))
 		}
+		tw1 := make([]types.Transaction, len(set1))
+		for i := range set1 {
+			tw1[i] = chainlab.DeepCopyTxn(set1[i])
+		}
+		tw2 := make([]types.V2Transaction, len(set2))
+		for i := range set2 {
+			tw2[i] = set2[i].DeepCopy()
+		}
 		if p := mon.Guard(func() {
 			if len(set1) > 0 {
 				known, cerr = cm.AddPoolTransactions(set1)
@@ -386,9 +422,26 @@ func runC14History(r *mon.Run, stream uint64) {
 			r.Violation("submit-panic", fmt.Sprint("pool submission panicked: ", p), cs, nil)
 			return
 		}
+		{
+			var tk bool
+			var te error
+			if len(tw1) > 0 {
+				tk, te = tw.CM.AddPoolTransactions(tw1)
+			} else {
+				tk, te = tw.CM.AddV2PoolTransactions(tip.L.State.Index, tw2)
+			}
+			if tk != known || (te == nil) != (cerr == nil) {
+				r.Violation("outcome-depends-on-query-order", fmt.Sprintf("the same submission gave known=%v err=%v on the node and known=%v err=%v on a twin that differs only in WHEN the pool was queried", known, cerr, tk, te), cs, nil)
+				return
+			}
+		}
 		r.Eval()
 		r.Count("submissions:"+cs.Kind, 1)
 		post := snapPool(cm)
+		if twp := snapPool(tw.CM); twp.key() != post.key() {
+			r.Violation("pool-depends-on-query-order", "after the same submissions and blocks the pool differs from that of a twin that differs only in WHEN the pool was queried", cs, map[string]any{"pool": idsOf(post.v1, post.v2), "twin_pool": idsOf(twp.v1, twp.v2)})
+			return
+		}
 		// expected
 		allKnown := true
 		want := map[types.TransactionID]string{}
@@ -438,8 +491,14 @@ func runC14History(r *mon.Run, stream uint64) {
 					var rerr error
 					if len(retry1) > 0 {
 						_, rerr = cm.AddPoolTransactions(retry1)
+						tw.CM.AddPoolTransactions(retry1)
 					} else {
+						var twin2 []types.V2Transaction
+						for _, x := range in2 {
+							twin2 = append(twin2, x.DeepCopy())
+						}
 						_, rerr = cm.AddV2PoolTransactions(tip.L.State.Index, in2)
+						tw.CM.AddV2PoolTransactions(tip.L.State.Index, twin2)
 					}
 					r.Count("valid_part_of_rejected_set_resubmitted", 1)
 					if rerr != nil {
@@ -643,6 +702,7 @@ func runC14(r *mon.Run, replay string) {
 	r.Floor("submissions_rejected", 50)
 	r.Floor("partly_known_sets_ending_with_known", 20)
 	r.Floor("valid_part_of_rejected_set_resubmitted", 20)
+	r.Floor("submissions_as_first_pool_operation_after_block", 20)
 	r.Floor("lookups:PoolTransaction:v2", 100)
 	r.Floor("lookups:V2PoolTransaction:v1", 100)
 	_ = rand.Int
